@@ -69,7 +69,7 @@ SumSeq(s) == IF s = <<>> THEN 0 ELSE s[1] + SumSeq(Tail(s))
 \* widens it (int with uint -> int64, anything with float -> float64), values
 \* that are not numbers are skipped, nulls only fix the type.
 SeqSum(ids) ==
-  LET xs  == [i \in 1..Len(ids) |-> ColX[ids[i]]]
+  LET xs  == TLCEval([i \in 1..Len(ids) |-> ColX[ids[i]]])
       num == SelectSeq(xs, LAMBDA v : v.t \in {"int", "uint", "float"})
       hasF == \E i \in 1..Len(num) : num[i].t = "float"
       hasI == \E i \in 1..Len(num) : num[i].t = "int"
@@ -94,7 +94,7 @@ Group(ids, sg) == SelectSeq(ids, LAMBDA i : Sig(i) = sg)
 
 \* what dot-expression `f` evaluates to on the record vector of one group
 Column(grp, f) ==
-  LET vals == [j \in 1..Len(grp) |-> Val(f, grp[j])]
+  LET vals == TLCEval([j \in 1..Len(grp) |-> Val(f, grp[j])])
       typ  == TypeOf(vals[1])
       nonnull == SelectSeq(vals, LAMBDA v : ~IsNullTok(v))
       dist == {nonnull[j] : j \in 1..Len(nonnull)}
@@ -188,7 +188,7 @@ Assignments(O) ==
   LET lo == ListOrder(O)
   IN {[l \in 1..NLegs |-> SelectSeq(lo, LAMBDA o : f[o] = l)] : f \in [O -> 1..NLegs]}
 
-FlatIds(O) == FlattenSeq([i \in 1..Cardinality(O) |-> objs[ListOrder(O)[i]]])
+FlatIds(O) == LET lo == ListOrder(O) IN FlattenSeq(TLCEval([i \in 1..Len(lo) |-> objs[lo[i]]]))
 \* the filter of "fcbs": x == 2 (numeric equality across int, uint and float)
 PredOK(i) == ColX[i] \in {T("int", 2), T("uint", 2), T("float", 4)}
 
@@ -249,7 +249,9 @@ VecAgrees ==
 \* adding or removing vector copies never changes a result: two commits with the
 \* same objects have the same results whatever their vector sets
 VectorsIrrelevant ==
-  \A c1, c2 \in 1..Len(commits) :
+  \* (the newest commit against every older one; older pairs were checked in earlier states)
+  LET c2 == Len(commits) IN
+  \A c1 \in 1..(c2 - 1) :
     (Fold(c1).ok /\ Fold(c2).ok /\ Fold(c1).o = Fold(c2).o) =>
       \A q \in {"cbs", "sum", "fcbs"} : \A asg \in Assignments(Fold(c1).o) :
         (Taint(q, Fold(c1).o, Fold(c1).v \cap Fold(c1).o, asg) = {} /\ Taint(q, Fold(c2).o, Fold(c2).v \cap Fold(c2).o, asg) = {})
@@ -274,6 +276,6 @@ StepPred(i) ==
         [vec |-> Vectorized(q, O, Vs), seq |-> ResJson(SeqResult(q, O)), order |-> lo,
          one |-> [res |-> ResJson(PlanResult(q, O, Vs, one)), taint |-> Taint(q, O, Vs, one), asg |-> one],
          rr  |-> [res |-> ResJson(PlanResult(q, O, Vs, rr)), taint |-> Taint(q, O, Vs, rr), asg |-> rr]]]
-VecExport == (Export /\ Len(hist) = MaxOps) =>
+VecExport == (Len(hist) = MaxOps) =>
                PrintT(<<"VHIST", ToJson([cc |-> cc, hist |-> hist, pred |-> [i \in 1..Len(hist) |-> IF hist[i].readable["main"] THEN StepPred(i) ELSE <<>>]])>>)
 =============================================================================
